@@ -161,6 +161,15 @@ type VC struct {
 	logSkip     map[ssa.Instruction]bool
 	logSkipFn   map[*ssa.Function]bool
 	factGuard   string // path condition under which facts derived during a contract evaluation hold
+	callSite    ssa.Instruction // for an inlined callee: the call it is inlined at
+	freshCalls  map[ssa.Instruction]freshCall // contracted calls that return freshly allocated, unshared objects
+}
+
+// freshCall: a call by contract whose callee may write ghost state only (so it cannot have stored
+// the result anywhere) and whose contract says result #idx is fresh.
+type freshCall struct {
+	preAlloc string
+	idx      map[int]bool
 }
 
 type loopInfo struct {
